@@ -47,7 +47,20 @@ package logic
 // calls (need >= 6 instructions); the cost of sumhash512 (v14 has no langspec) is taken from
 // the evaluator; linear costs are checked against floor(len/chunk) (never more than the spec).
 //
-// Mutants (bin/mut C31 data/transactions/logic/... --only): see the report / checks.d note.
+// Mutants (VERIF_REPO=<worktree> bin/mut C31 data/transactions/logic/<file> ... --only), all DETECTED:
+//   1. eval.go step(): generic result-size check `> maxStringSize` -> `> maxStringSize+1`
+//      (concat of 4096+1 bytes then SUCCEEDS with a 4097-byte value; opConcat itself has no check)
+//   2. eval.go substring(): `end < start` test removed (recovered slice panic -> panicError)
+//   3. opcodes.go: sqrt `costly(4)` -> `costly(3)` (step charged less than the specified cost)
+//   4. eval.go step(): `len(cx.Stack) > maxStackDepth` -> `> maxStackDepth+1` (needs a loop /
+//      recursion that reaches depth 1001)
+//   5. frames.go opFrameDig: `idx < 0` test removed (needs callsub WITHOUT proto, then frame_dig -128:
+//      recovered index panic)
+//   6. eval.go checkStep(): immediate-size test disabled (CheckSignature/CheckContract recover a panic)
+//   7. eval.go remainingBudget(): pooled application budget reported one too high (a loop runs one
+//      cost unit past the budget: needs ~11200 steps)
+// An off-by-one in opBytesZero's own length test is NOT property-breaking (step()'s generic check
+// still fails the program) and is therefore not used as a mutant.
 
 import (
 	"encoding/binary"
